@@ -11,6 +11,8 @@ from hypothesis import strategies as st
 
 from vlib import gen, sources
 from vlib import pipeline as pl
+from pathlib import Path as Path_
+
 from vlib.runner import Checker, Component, Result, Scratch, exc_sig
 
 PROPERTY = "C11"
@@ -110,7 +112,7 @@ def cfg_case(draw):
     from props.c15_config import params_strategy
 
     p = draw(params_strategy())
-    if p["cosmology"] == "custom":
+    if p["cosmology"] in ("custom", "curved"):  # only named astropy cosmologies can be serialised (documented)
         p["cosmology"] = draw(st.sampled_from(["Planck18", "WMAP7", "Planck13"]))
     return p
 
@@ -174,6 +176,7 @@ def text_case(draw):
     binning = {"edges": edges, "closed": draw(gen.closed_strategy)}
     c = draw(gen.sampled_case(binning=binning, elem=text_value, min_samples=1, max_samples=draw(st.sampled_from([6, 6, 14]))))
     c["cls"] = draw(st.sampled_from(["CorrData", "RedshiftData", "HistData"]))
+    c["prefix"] = draw(st.sampled_from(["product", "product", "nz_z0.2-1.4", "result.v2", "a.b.c"]))
     return c
 
 
@@ -214,13 +217,13 @@ def run_text(case):
     ck = Checker(nb == 1 or not np.all(np.isfinite(data)), classes=[f"cls:{case['cls']}", f"bins:{nb}", "nonfinite" if not np.all(np.isfinite(data)) else "finite", f"closed:{case['binning']['closed']}"])
     obj = gen.build_sampled(case, cls)
     with Scratch() as tmp:
-        prefix = tmp / "product"
+        prefix = tmp / case.get("prefix", "product")
         with np.errstate(all="ignore"):
             ok, _ = ck.call(lambda: obj.to_files(prefix), f"to_files:bins={'1' if nb == 1 else 'n'}")
         if not ok:
             return ck.results()
-        for ext in (".dat", ".smp", ".cov"):
-            ck.expect(prefix.with_suffix(ext).exists(), f"to_files:missing-{ext}")
+        written = sorted(p.name for p in tmp.iterdir())
+        ck.expect(len(written) == 3 and {Path_(w).suffix for w in written} == {".dat", ".smp", ".cov"}, "to_files:unexpected-set-of-files", str(written))
         ok, back = ck.call(lambda: cls.from_files(prefix), f"from_files:bins={'1' if nb == 1 else 'n'}")
         if not ok:
             return ck.results()
